@@ -164,6 +164,28 @@ impl<const FW: u16, const FH: u16, C: Col> Model for Tiny<FW, FH, C> {
     }
 }
 
+/// External model of a panel with hard-wired colour / refresh order: it programs and returns the
+/// all-zero address mode whatever the options say (a legitimate `Model`: the returned value is what it sent).
+pub struct Fixed43;
+impl Model for Fixed43 {
+    type ColorFormat = Rgb565;
+    const FRAMEBUFFER_SIZE: (u16, u16) = (4, 3);
+    fn init<DELAY, DI>(&mut self, di: &mut DI, delay: &mut DELAY, options: &ModelOptions) -> Result<SetAddressMode, ModelInitError<DI::Error>>
+    where
+        DELAY: DelayNs,
+        DI: Interface,
+    {
+        let madctl = SetAddressMode::default();
+        di.write_command(madctl)?;
+        di.write_command(SetPixelFormat::new(PixelFormat::with_all(BitsPerPixel::Sixteen)))?;
+        di.write_command(SetInvertMode::new(options.invert_colors))?;
+        di.write_command(ExitSleepMode)?;
+        delay.delay_us(120_000);
+        di.write_command(SetDisplayOn)?;
+        Ok(madctl)
+    }
+}
+
 // ------------------------------------------------------------------------------------------------
 // error classification
 
@@ -644,6 +666,8 @@ pub enum ModelId {
     Tiny { fw: u16, fh: u16, c666: bool },
     /// index into `BUILTINS`
     Builtin(u8),
+    /// `Fixed43`: 4x3 external model that always programs and returns MADCTL 0x00
+    Fixed43,
 }
 
 #[derive(Clone, Copy, Debug, PartialEq, Eq, Hash, PartialOrd, Ord, serde::Serialize, serde::Deserialize)]
@@ -682,7 +706,16 @@ pub struct Cfg {
     pub invert: bool,
     pub refresh: u8,
     pub rst: bool,
+    /// bit 0: builder options are set *before* `.reset_pin()` (call order); bit 1: the interface is
+    /// handed to the builder as `&mut DI` (light path only); bit 2: data pins start high (0xFFFF)
+    #[serde(default)]
+    pub flags: u8,
 }
+pub const F_OPTS_FIRST: u8 = 1;
+pub const F_BORROWED: u8 = 2;
+pub const F_DATA_HIGH: u8 = 4;
+/// with F_BORROWED: after the (possibly failing) first init, clear all faults and initialise again through the same interface
+pub const F_RETRY: u8 = 8;
 impl Cfg {
     pub fn tiny(fw: u16, fh: u16, c666: bool, tr: Transport, win: (u16, u16, u16, u16), orient: u8) -> Cfg {
         Cfg {
@@ -694,18 +727,21 @@ impl Cfg {
             invert: false,
             refresh: 0,
             rst: false,
+            flags: 0,
         }
     }
     pub fn fb(&self) -> (u16, u16) {
         match self.model {
             ModelId::Tiny { fw, fh, .. } => (fw, fh),
             ModelId::Builtin(i) => BUILTINS[i as usize].fb,
+            ModelId::Fixed43 => (4, 3),
         }
     }
     pub fn c666(&self) -> bool {
         match self.model {
             ModelId::Tiny { c666, .. } => c666,
             ModelId::Builtin(i) => BUILTINS[i as usize].c666,
+            ModelId::Fixed43 => false,
         }
     }
     pub fn window(&self) -> (u16, u16, u16, u16) {
@@ -769,6 +805,8 @@ where
 #[derive(Clone, Debug, PartialEq, Eq)]
 pub struct InitOut {
     pub res: Result<DState, ErrClass>,
+    /// F_RETRY: outcome of the second init on the same (lent) interface, and the event index where it started
+    pub retry: Option<(Result<DState, ErrClass>, usize)>,
 }
 
 pub enum Fin {
@@ -776,13 +814,14 @@ pub enum Fin {
     Init(InitOut),
 }
 
-fn finish<DI, M>(model: M, di: DI, cfg: &Cfg, bd: &Bd, buf: Option<SpiBuf>, light: bool) -> Fin
+fn finish<DI, M, F: Fn() -> M>(mk_model: F, di: DI, cfg: &Cfg, bd: &Bd, buf: Option<SpiBuf>, light: bool) -> Fin
 where
     DI: Interface + BusPeek + 'static,
     DI::Error: Classify,
     M: Model + 'static,
     M::ColorFormat: InterfacePixelFormat<DI::Word> + Col,
 {
+    let model = mk_model();
     let mut delay = VDelay::new(bd);
     let free = |buf: Option<SpiBuf>| {
         if let Some(mut b) = buf {
@@ -791,11 +830,37 @@ where
         }
     };
     if light {
-        let res = if cfg.rst {
-            apply_opts(Builder::new(model, di).reset_pin(VPin::new(bd, PIN_RST)), cfg)
-                .init(&mut delay)
-                .map(|d| light_state(&d))
-                .map_err(|e| classify_init(&e))
+        let opts_first = cfg.flags & F_OPTS_FIRST != 0;
+        let res = if cfg.flags & F_BORROWED != 0 {
+            // the interface is lent to the builder (`impl Interface for &mut T`)
+            let mut di = di;
+            let r = if cfg.rst {
+                let b = if opts_first { apply_opts(Builder::new(model, &mut di), cfg).reset_pin(VPin::new(bd, PIN_RST)) } else { apply_opts(Builder::new(model, &mut di).reset_pin(VPin::new(bd, PIN_RST)), cfg) };
+                b.init(&mut delay).map(|d| light_state(&d)).map_err(|e| classify_init(&e))
+            } else {
+                apply_opts(Builder::new(model, &mut di), cfg).init(&mut delay).map(|d| light_state(&d)).map_err(|e| classify_init_norst(&e))
+            };
+            if cfg.flags & F_RETRY != 0 {
+                let start = {
+                    let mut b = bd.borrow_mut();
+                    b.faults.clear();
+                    b.evs.len()
+                };
+                let model2 = mk_model();
+                let r2 = if cfg.rst {
+                    apply_opts(Builder::new(model2, &mut di).reset_pin(VPin::new(bd, PIN_RST)), cfg).init(&mut delay).map(|d| light_state(&d)).map_err(|e| classify_init(&e))
+                } else {
+                    apply_opts(Builder::new(model2, &mut di), cfg).init(&mut delay).map(|d| light_state(&d)).map_err(|e| classify_init_norst(&e))
+                };
+                drop(di);
+                free(buf);
+                return Fin::Init(InitOut { res: r, retry: Some((r2, start)) });
+            }
+            drop(di);
+            r
+        } else if cfg.rst {
+            let b = if opts_first { apply_opts(Builder::new(model, di), cfg).reset_pin(VPin::new(bd, PIN_RST)) } else { apply_opts(Builder::new(model, di).reset_pin(VPin::new(bd, PIN_RST)), cfg) };
+            b.init(&mut delay).map(|d| light_state(&d)).map_err(|e| classify_init(&e))
         } else {
             apply_opts(Builder::new(model, di), cfg)
                 .init(&mut delay)
@@ -803,7 +868,7 @@ where
                 .map_err(|e| classify_init_norst(&e))
         };
         free(buf);
-        return Fin::Init(InitOut { res });
+        return Fin::Init(InitOut { res, retry: None });
     }
     assert!(!cfg.rst, "the full facade is only instantiated without a reset pin; use init_only");
     let r: Result<Box<dyn Dut>, ErrClass> = apply_opts(Builder::new(model, di), cfg)
@@ -847,32 +912,32 @@ pub const SPI_POISON: u8 = 0xEE;
 fn build_tiny<const FW: u16, const FH: u16>(cfg: &Cfg, bd: &Bd, c666: bool, light: bool) -> Fin {
     match (cfg.tr, c666) {
         (Transport::RecSerial | Transport::RecPar8, false) => {
-            finish(Tiny::<FW, FH, Rgb565>(PhantomData), Any8::Rec(RecSerial::new(bd)), cfg, bd, None, light)
+            finish(|| Tiny::<FW, FH, Rgb565>(PhantomData), Any8::Rec(RecSerial::new(bd)), cfg, bd, None, light)
         }
         (Transport::RecSerial | Transport::RecPar8, true) => {
-            finish(Tiny::<FW, FH, Rgb666>(PhantomData), Any8::Rec(RecSerial::new(bd)), cfg, bd, None, light)
+            finish(|| Tiny::<FW, FH, Rgb666>(PhantomData), Any8::Rec(RecSerial::new(bd)), cfg, bd, None, light)
         }
         (Transport::Spi { len }, false) => {
             let (b, s) = mk_spi(bd, len as usize, SPI_POISON);
-            finish(Tiny::<FW, FH, Rgb565>(PhantomData), Any8::Spi(s), cfg, bd, Some(b), light)
+            finish(|| Tiny::<FW, FH, Rgb565>(PhantomData), Any8::Spi(s), cfg, bd, Some(b), light)
         }
         (Transport::Spi { len }, true) => {
             let (b, s) = mk_spi(bd, len as usize, SPI_POISON);
-            finish(Tiny::<FW, FH, Rgb666>(PhantomData), Any8::Spi(s), cfg, bd, Some(b), light)
+            finish(|| Tiny::<FW, FH, Rgb666>(PhantomData), Any8::Spi(s), cfg, bd, Some(b), light)
         }
-        (Transport::Par8, false) => finish(Tiny::<FW, FH, Rgb565>(PhantomData), Any8::Par(mk_par8(bd)), cfg, bd, None, light),
-        (Transport::Par8, true) => finish(Tiny::<FW, FH, Rgb666>(PhantomData), Any8::Par(mk_par8(bd)), cfg, bd, None, light),
+        (Transport::Par8, false) => finish(|| Tiny::<FW, FH, Rgb565>(PhantomData), Any8::Par(mk_par8(bd)), cfg, bd, None, light),
+        (Transport::Par8, true) => finish(|| Tiny::<FW, FH, Rgb666>(PhantomData), Any8::Par(mk_par8(bd)), cfg, bd, None, light),
         (Transport::RecPar16, false) => {
-            finish(Tiny::<FW, FH, Rgb565>(PhantomData), Any16::Rec(RecPar16::new(bd)), cfg, bd, None, light)
+            finish(|| Tiny::<FW, FH, Rgb565>(PhantomData), Any16::Rec(RecPar16::new(bd)), cfg, bd, None, light)
         }
-        (Transport::Par16, false) => finish(Tiny::<FW, FH, Rgb565>(PhantomData), Any16::Par(mk_par16(bd)), cfg, bd, None, light),
+        (Transport::Par16, false) => finish(|| Tiny::<FW, FH, Rgb565>(PhantomData), Any16::Par(mk_par16(bd)), cfg, bd, None, light),
         (Transport::RecPar16 | Transport::Par16, true) => panic!("Rgb666 is not available on a 16-bit bus"),
     }
 }
 
 /// Light path for models that are only ever initialised (C09): 8-bit recording interface only.
 fn init_tiny<const FW: u16, const FH: u16>(cfg: &Cfg, bd: &Bd) -> Fin {
-    finish(Tiny::<FW, FH, Rgb565>(PhantomData), RecSerial::new(bd), cfg, bd, None, true)
+    finish(|| Tiny::<FW, FH, Rgb565>(PhantomData), RecSerial::new(bd), cfg, bd, None, true)
 }
 
 macro_rules! tiny_dispatch {
@@ -896,13 +961,13 @@ macro_rules! tiny_init_dispatch {
 macro_rules! builtin_build {
     ($model:expr, $cfg:expr, $bd:expr, $light:expr) => {
         match $cfg.tr {
-            Transport::RecSerial => finish($model, RecSerial::new($bd), $cfg, $bd, None, $light),
-            Transport::RecPar8 => finish($model, RecPar8::new($bd), $cfg, $bd, None, $light),
+            Transport::RecSerial => finish(|| $model, RecSerial::new($bd), $cfg, $bd, None, $light),
+            Transport::RecPar8 => finish(|| $model, RecPar8::new($bd), $cfg, $bd, None, $light),
             Transport::Spi { len } => {
                 let (b, s) = mk_spi($bd, len as usize, SPI_POISON);
-                finish($model, s, $cfg, $bd, Some(b), $light)
+                finish(|| $model, s, $cfg, $bd, Some(b), $light)
             }
-            Transport::Par8 => finish($model, mk_par8($bd), $cfg, $bd, None, $light),
+            Transport::Par8 => finish(|| $model, mk_par8($bd), $cfg, $bd, None, $light),
             _ => unreachable!(),
         }
     };
@@ -910,8 +975,8 @@ macro_rules! builtin_build {
 macro_rules! builtin_build16 {
     ($model:expr, $cfg:expr, $bd:expr, $light:expr) => {
         match $cfg.tr {
-            Transport::RecPar16 => finish($model, RecPar16::new($bd), $cfg, $bd, None, $light),
-            Transport::Par16 => finish($model, mk_par16($bd), $cfg, $bd, None, $light),
+            Transport::RecPar16 => finish(|| $model, RecPar16::new($bd), $cfg, $bd, None, $light),
+            Transport::Par16 => finish(|| $model, mk_par16($bd), $cfg, $bd, None, $light),
             _ => unreachable!(),
         }
     };
@@ -945,6 +1010,15 @@ fn build_any(cfg: &Cfg, bd: &Bd, light: bool) -> Fin {
             (1, 1), (1, 3), (2, 2), (3, 2), (2, 3), (3, 3), (4, 2), (4, 3), (3, 4), (3, 5), (5, 3), (4, 4), (5, 4), (4, 5), (5, 5), (8, 6),
             (40, 35), (130, 4), (3, 104), (64, 64),
             (65535, 65535), (65535, 1), (1, 65535), (2, 160), (2, 162), (2, 240), (2, 536), (1, 480)),
+        ModelId::Fixed43 => match cfg.tr {
+            Transport::RecSerial | Transport::RecPar8 => finish(|| Fixed43, Any8::Rec(RecSerial::new(bd)), cfg, bd, None, light),
+            Transport::Par8 => finish(|| Fixed43, Any8::Par(mk_par8(bd)), cfg, bd, None, light),
+            Transport::Spi { len } => {
+                let (b, s) = mk_spi(bd, len as usize, SPI_POISON);
+                finish(|| Fixed43, Any8::Spi(s), cfg, bd, Some(b), light)
+            }
+            _ => panic!("Fixed43 is only instantiated on 8-bit-word transports"),
+        },
         ModelId::Builtin(i) => {
             if cfg.tr.bus16() {
                 match i {
